@@ -3,8 +3,9 @@
 import sys, subprocess, json, collections, os
 prop, build, frm, count = sys.argv[1], sys.argv[2], int(sys.argv[3]), int(sys.argv[4])
 tier = sys.argv[5] if len(sys.argv) > 5 else "quick"
+NW = 8 if build == "san" else 16
 os.makedirs("/tmp/sigs", exist_ok=True)
-procs = [subprocess.Popen(["/verif/build/%s/adaptasim" % build, "search", "--prop", prop, "--tier", tier, "--from", str(frm + j), "--step", "16", "--count", str((count + 15) // 16)], stdout=subprocess.PIPE, text=True) for j in range(16)]
+procs = [subprocess.Popen(["/verif/build/%s/adaptasim" % build, "search", "--prop", prop, "--tier", tier, "--from", str(frm + j), "--step", str(NW), "--count", str((count + NW - 1) // NW)], stdout=subprocess.PIPE, text=True) for j in range(NW)]
 cnt = collections.Counter(); st = collections.Counter(); samples = {}
 for p in procs:
     for l in p.stdout:
